@@ -83,6 +83,8 @@ func inBounds(i int64, n int) bool { return 0 <= wrapIndex(i, n) && wrapIndex(i,
 
 
 
+
+
 // BEGIN GENERATED members (tools/gen_member_contracts.py; edit the table there)
 
 // Every member the analyzer offers on a type exists on every value of that type.
@@ -134,6 +136,8 @@ func inBounds(i int64, n int) bool { return 0 <= wrapIndex(i, n) && wrapIndex(i,
     ensures @has-every-offered-member ret1 == nil ==> haskey(ret0, "keys") && haskey(ret0, "to_json") && haskey(ret0, "to_json_indent")
     ensures @no-interrupt ret1 == nil
     loop 1 invariant fresh(fields) && haskey(fields, "keys") && haskey(fields, "to_json") && haskey(fields, "to_json_indent")
+    loop 1 invariant forall k string in keys(self.FieldsInternal) :: visited(k) ==> haskey(fields, k)
+    ensures @has-every-own-field ret1 == nil ==> forall k string in keys(self.FieldsInternal) :: haskey(ret0, k)
 @*/
 
 /*@ func (self ValueOption) Fields
